@@ -168,8 +168,10 @@ func (g *opGen) draw(t *rapid.T, p *txPair) (Op, bool) {
 				name = subs[0] // key names an existing bucket: ErrIncompatibleValue
 			}
 		}
-		if _, isB := b.Subs[name]; isB && known(sigPutBucketName) && w {
-			e.rec.Excluded()
+		if _, isB := b.Subs[name]; isB && w {
+			// outside the domain: interface.go promises ErrIncompatibleValue, ffldb stores the pair in a
+			// separate namespace (an API-contract deviation the property does not cover; see TestKnownFindings observations)
+			e.rec.Count("domain-excluded:put-on-bucket-name", 1)
 			return Op{}, false
 		}
 		return Op{K: "put", Path: path, Name: name, Val: genVal(t)}, true
@@ -186,12 +188,12 @@ func (g *opGen) draw(t *rapid.T, p *txPair) (Op, bool) {
 			}
 		}
 		if w {
-			if _, isB := b.Subs[name]; isB && known(sigDeleteBucketName) {
-				e.rec.Excluded()
+			if _, isB := b.Subs[name]; isB {
+				e.rec.Count("domain-excluded:delete-on-bucket-name", 1)
 				return Op{}, false
 			}
-			if name == "" && known(sigDeleteEmptyKey) {
-				e.rec.Excluded()
+			if name == "" {
+				e.rec.Count("domain-excluded:delete-empty-key", 1)
 				return Op{}, false
 			}
 		}
@@ -271,8 +273,10 @@ func (g *opGen) draw(t *rapid.T, p *txPair) (Op, bool) {
 		if g.noPrune {
 			return Op{}, false
 		}
-		if w && p.prunes > 0 && known(sigPruneTwice) {
-			e.rec.Excluded()
+		if w && p.pruneCalls > 0 {
+			// at most one PruneBlocks per write transaction (a second call re-schedules the same
+			// files; outside the domain by decision of the lead, observed in TestKnownFindings)
+			e.rec.Count("domain-excluded:second-prune-in-tx", 1)
 			return Op{}, false
 		}
 		mf := uint64(e.maxFile)
@@ -326,8 +330,10 @@ func (g *opGen) drawCursor(t *rapid.T, p *txPair) (Op, bool) {
 		if !c.m.Positioned || c.m.Deleted {
 			return Op{}, false // Delete on an unpositioned cursor / twice: not specified
 		}
-		if !mt.Writable && known(sigCursorDeleteRO) {
-			e.rec.Excluded()
+		if !mt.Writable {
+			// Cursor.Delete in a read-only transaction: outside the domain (ffldb returns nil and the
+			// key then disappears from that transaction's iterations; observed in TestKnownFindings)
+			e.rec.Count("domain-excluded:cursor-delete-read-only", 1)
 			return Op{}, false
 		}
 		return Op{K: "cdel", Cur: slot}, true
